@@ -42,7 +42,9 @@ Ev == Tr[l]
 E1 == Tr[1]
 KC == E1.kc
 
-DeOut(e) == IF e.out = "raised" THEN "raised" ELSE IF e.eq /\ e.feq /\ e.beq THEN "same" ELSE "differs"
+(* "an equal object": equal by the objects' own __eq__ in both directions and in every public field; that the copy also    *)
+(* re-serializes to the very same bytes is more than the property states (Layer B, see DriftOf)                          *)
+DeOut(e) == IF e.out = "raised" THEN "raised" ELSE IF e.eq /\ e.feq THEN "same" ELSE "differs"
 
 Act ==
     CASE Ev.op = "Setup"    -> Setup(Ev.out)
@@ -63,7 +65,8 @@ DriftOf(e) ==
       [] e.op = "Ser" /\ e.out = "ok" ->
             IF ToSetQ(e.lay) # ToSetQ(Codec(scheme, e.obj, KC, "fixed").w) THEN "writer:" \o e.obj ELSE ""
       [] e.op = "De" /\ e.out = "ok" ->
-            IF ToSetQ(e.lay) # ToSetQ(Codec(scheme, e.obj, KC, "fixed").r) THEN "reader:" \o e.obj ELSE ""
+            IF ToSetQ(e.lay) # ToSetQ(Codec(scheme, e.obj, KC, "fixed").r) THEN "reader:" \o e.obj
+            ELSE IF ~e.beq THEN "reserialize:" \o e.obj ELSE ""
       [] e.op = "Foreign" -> IF (e.out = "raised") # ForeignRefused(e.obj) THEN "foreign:" \o e.obj ELSE ""
       [] e.op = "New" /\ e.out = "ok" -> IF ~e.samecfg THEN "json:" \o e.side ELSE ""
       [] OTHER -> ""
